@@ -27,6 +27,7 @@ def gen_history(spec, rng, nbuf, nops):
         lines.append("buf %s %s" % (bid, hexs(body)))
         bufs.append((bid, f, off))
     used = set()
+    last = {}
     for _ in range(nops):
         bid, f, off = rng.choice(bufs)
         r = rng.random()
@@ -43,6 +44,11 @@ def gen_history(spec, rng, nbuf, nops):
             p = rng.choice(F.paths_for(f, fld, setter=True))
             w = fld["width"]
             v = rng.choice([0, 1, (1 << w) - 1, 1 << w, rng.getrandbits(w) if w else 0, rng.getrandbits(64)]) % (1 << 64)
+            prev = last.get((bid, i))
+            if prev is not None and w >= 2 and rng.random() < 0.35:
+                # related to the last value written to this field: same low half, one bit flipped, ...
+                v = rng.choice([prev % (1 << (w // 2)), prev ^ (1 << (w - 1)), prev, prev % (1 << 32), (prev & 0xff) | (rng.getrandbits(w) & ~0xff)]) % (1 << w)
+            last[(bid, i)] = v % (1 << w) if w else 0
             if p in ("l", "a") and leg["valBits"] == 32:
                 v %= 1 << 32
             lines.append("set %s %d %s %d %s %d" % (bid, off, f["name"], i, p, v))
